@@ -106,6 +106,7 @@ func c06Body(r *vlib.Run) int {
 	c06LongRun(r)
 	c06PipeRuns(r)
 	c06Systematic(r)
+	c06AggTier(r)
 	c06Merge(r)
 	return len(plans) * runsPer / 2
 }
@@ -538,6 +539,51 @@ func c06Systematic(r *vlib.Run) {
 	}
 	if short*2 >= runs {
 		fmt.Printf("OBSERVATION property=%s the recorded early exit occurred in %d of %d runs of the limit-1 scenario (usually rare): %v\n", r.Property, short, runs, details)
+	}
+}
+
+// ---- in-process aggregator tier
+
+type c06AggCase struct {
+	Phases    []int `json:"phases"` // lines fed before each report interval / before the end
+	Groups    int   `json:"groups"`
+	ConsumeUs int   `json:"consume_us"` // time the consumer needs per partial result
+}
+
+func c06AggTier(r *vlib.Run) {
+	n := r.N(160, 4000)
+	rng := r.Rng("agg")
+	var cases []interface{}
+	for i := 0; i < n; i++ {
+		c := c06AggCase{Groups: []int{1, 5, 60, 400, 3000}[rng.Intn(5)], ConsumeUs: []int{0, 0, 50, 500, 2000}[rng.Intn(5)]}
+		np := 1 + rng.Intn(4)
+		for k := 0; k < np; k++ {
+			c.Phases = append(c.Phases, []int{0, 1, 40, 400, 3000}[rng.Intn(5)])
+		}
+		if c.Groups >= 3000 && c.ConsumeUs >= 500 {
+			c.ConsumeUs = 100
+		}
+		cases = append(cases, c)
+	}
+	results, crashes := r.RunBatches("c06agg", cases, 40, 14, nil, nil)
+	for _, cr := range crashes {
+		r.Violation("aggregator-crash", map[string]interface{}{"case": cases[cr.Any()], "stderr": vlib.Trunc(string(cr.Result.Stderr), 3000)})
+	}
+	for i, raw := range results {
+		if raw == nil {
+			continue
+		}
+		var res struct {
+			Samples, Want, Messages int
+			Err                     string
+		}
+		json.Unmarshal(raw, &res)
+		r.Eval(fmt.Sprintf("agg|%v", cases[i]))
+		r.Count("aggregator_partial_results_observed", res.Messages)
+		if res.Samples != res.Want || res.Err != "" {
+			r.Violation("partial-results-do-not-account-for-every-line", map[string]interface{}{"case": cases[i], "lines_accounted": res.Samples,
+				"lines_fed": res.Want, "partial_results": res.Messages, "err": res.Err})
+		}
 	}
 }
 
